@@ -30,7 +30,7 @@ for p in props:
 have = {c['property_id'] for c in checks}
 m = {
     'version': 1,
-    'setup_cmd': 'cd engine && GOFLAGS=-mod=mod GOPROXY=off go build -o ../bin/gosx ./cmd/gosx',
+    'setup_cmd': 'cd engine && env -u GOSUMDB GOTOOLCHAIN=auto GOFLAGS=-mod=mod GOPROXY=off go build -o ../bin/gosx ./cmd/gosx',
     'hooks': {
         'guard': 'verif',
         'enable': 'harness files carry //go:build verif and reach the loader (go/packages Overlay) and the compiler (go test -overlay, -tags verif) as overlays only; there are no hook commits in /repo',
